@@ -461,7 +461,7 @@ def shrinker(case):
 TT = '<tt xml:lang="en" xmlns="http://www.w3.org/ns/ttml" xmlns:tts="http://www.w3.org/ns/ttml#styling" xmlns:ttp="http://www.w3.org/ns/ttml#parameter" xmlns:ittp="http://www.w3.org/ns/ttml/profile/imsc1#parameter"%s>%s</tt>'
 
 
-def _gsi(tnb=b"00001", dfc=b"STL25.01", cct=b"00", dsc=b"1", mnr=b"23"):
+def _gsi(tnb=b"00001", dfc=b"STL25.01", cct=b"00", dsc=b"1", mnr=b"23", tcp=b"00000000"):
   g = bytearray(b" " * 1024)
   g[0:3] = b"850"
   g[3:11] = dfc
@@ -474,7 +474,7 @@ def _gsi(tnb=b"00001", dfc=b"STL25.01", cct=b"00", dsc=b"1", mnr=b"23"):
   g[251:253] = b"40"
   g[253:255] = mnr
   g[255:256] = b"1"
-  g[256:264] = b"00000000"
+  g[256:264] = tcp
   g[264:272] = b"00000000"
   g[272:273] = b"1"
   g[273:274] = b"1"
@@ -517,6 +517,7 @@ CATALOG = [
   # reader configurations (third item: index into READER_CFGS): row count taken from a GSI MNR field that is zero / not a number,
   # programme start taken from a TCP field that is not a time code
   ("stl", _gsi(dsc=b"0", mnr=b"00") + _tti(), 1), ("stl", _gsi(dsc=b"0", mnr=b"xx") + _tti(tci=(0, 1, 0, 0), tco=(0, 1, 2, 0)), 1),
+  ("stl", _gsi(tcp=b"        ") + _tti(), 4), ("stl", _gsi(tcp=b"99999999") + _tti(), 4), ("stl", _gsi(tcp=b"1000000x") + _tti(), 6),
   ("stl", _gsi(dsc=b"0", mnr=b"  ") + _tti(), 6), ("stl", _gsi(dsc=b"0") + _tti(vp=23), 3), ("stl", _gsi() + _tti(), 4), ("stl", _gsi(dsc=b"0") + _tti(), 5),
   ("stl", _gsi(dfc=b"STL99.01") + _tti()), ("stl", _gsi(cct=b"99") + _tti()), ("stl", _gsi(dsc=b"9") + _tti()), ("stl", _gsi(tnb=b"     ") + _tti()),
   ("stl", _gsi() + _tti(cs=3)), ("stl", _gsi() + _tti(cs=2) + _tti(sn=2, cs=3)), ("stl", _gsi() + _tti(ebn=0x01)), ("stl", _gsi() + _tti(ebn=0xFE) + _tti(cf=1)),
